@@ -27,7 +27,22 @@
      a gene name n : Z is name_code s, the integer code of the str s (its
      code points); valid_name s = every code point is in 0 .. 0x10FFFF;
      addresses o n = the call o is made with the name n (add_gene: the name of
-     the gene handed in; replicate / express name no single gene). *)
+     the gene handed in; replicate / express name no single gene).
+     The configuration attributes are plain attributes of the live object and
+     the history language contains their assignment: OSetAllow b
+     (genome.allow_mutations = b), OSetCb c (genome.on_mutation = c), OSetRate k
+     (genome.mutation_rate = k/64); is_config o = o is such an assignment.
+     allow G / cb G / mrate G are the attributes AS THEY ARE in state G, so
+     approved_by G .. is the gate as configured at that moment;
+     never_enabled ops = no call of ops is OSetAllow true; installed G ops c =
+     c is the callback of G or one assigned by a call of ops; entry_ok_in P m =
+     "m approved -> some callback c with P c approves the change m records";
+     last_allow ops d (last_cb, last_rate) = the value of the last assignment
+     in ops, d when there is none; authorised_change Gk o n = the call o,
+     made in state Gk, changes the value of n and passes the gate as Gk is
+     configured (a re-add with allow_mutations on; a mutate / rollback that
+     allow_mutations or the callback of Gk authorises for that very change);
+     repeat (i, o) k = the call o made k times in a row on genome i. *)
 From Coq Require Import ZArith List Bool.
 From Verif Require Import C20.Model C20.Proofs.
 Import ListNotations.
@@ -35,29 +50,35 @@ Open Scope Z_scope.
 
 (* ---- 1. no unauthorised change ---------------------------------------- *)
 
-(* With allow_mutations off, after ANY calls on ANY genomes of the lineage,
-   every value stored in genome i is its old value overwritten by exactly the
-   logged entries that are marked approved, each of which the callback
-   approved for that specific change (gene, original, new, reason), the
-   original being the value at that moment.  Nothing else (re-adding,
-   expression changes, rollback, replication, calls on relatives) changes it. *)
+(* With allow_mutations off and never switched on by an assignment on genome
+   i, after ANY calls on ANY genomes of the lineage (assignments of
+   on_mutation / mutation_rate and of allow_mutations = False included), every
+   value stored in genome i is its old value overwritten by exactly the logged
+   entries that are marked approved, each of which a callback installed on
+   genome i at some moment of the history approved for that specific change
+   (gene, original, new, reason), the original being the value at that moment.
+   Nothing else (re-adding, expression changes, rollback, replication, calls
+   and assignments on relatives) changes it.  (WHICH callback decides a call:
+   the one installed when the call is made, c20_change_needs_authorisation_at_call_time.) *)
 Theorem c20_unauthorised_ops_change_nothing :
   forall W ops i G,
-    nth_error W i = Some G -> allow G = false ->
+    nth_error W i = Some G -> allow G = false -> never_enabled (ops_for i ops) ->
     exists G' newlog,
-      nth_error (run W ops) i = Some G' /\ mlog G' = mlog G ++ newlog /\
-      Forall (entry_ok (cb G)) newlog /\
+      nth_error (run W ops) i = Some G' /\ allow G' = false /\ mlog G' = mlog G ++ newlog /\
+      Forall (entry_ok_in (installed G (ops_for i ops))) newlog /\
       forall n v, stored G n = Some v ->
         stored G' n = Some (replay newlog n v) /\ origs n v newlog.
 Proof. exact unauthorised_ops_proof. Qed.
 Print Assumptions c20_unauthorised_ops_change_nothing.
 
-(* ... so when the callback approves nothing (or there is none): no stored
-   value changes, every new log entry is unapproved, the value map only grows
-   by brand-new genes, and without those map and hash are unchanged. *)
+(* ... so when no callback ever installed approves anything (or there is
+   none): no stored value changes, every new log entry is unapproved, the value
+   map only grows by brand-new genes, and without those map and hash are
+   unchanged. *)
 Theorem c20_nothing_approved_nothing_changes :
   forall W ops i G,
-    nth_error W i = Some G -> allow G = false -> cb_denies (cb G) ->
+    nth_error W i = Some G -> allow G = false -> never_enabled (ops_for i ops) ->
+    (forall c, installed G (ops_for i ops) c -> cb_denies c) ->
     exists G' newlog fresh,
       nth_error (run W ops) i = Some G' /\
       mlog G' = mlog G ++ newlog /\ Forall (fun m => m_approved m = false) newlog /\
@@ -69,21 +90,86 @@ Theorem c20_nothing_approved_nothing_changes :
 Proof. exact nothing_approved_proof. Qed.
 Print Assumptions c20_nothing_approved_nothing_changes.
 
-(* Operation by operation: as long as each call on genome i is one whose
-   specific change the gate does not pass at that moment ([unauthorised]: a
-   re-add, a mutate or rollback that neither allow_mutations nor the callback
-   authorises; expression changes, replicate, express), the value map (in dict
-   order) and the hash of genome i are unchanged and everything logged
-   meanwhile is unapproved — whatever the callback would say about other
-   changes, and whatever is done to the relatives. *)
+(* Operation by operation, for EVERY configuration and every history of
+   assignments: as long as each call on genome i is one whose specific change
+   the gate does not pass AS THE GENOME IS CONFIGURED AT THE MOMENT OF THAT CALL
+   ([unauthorised], evaluated in the state the call finds: a re-add while
+   allow_mutations is off, a mutate or rollback that neither allow_mutations
+   nor the callback then installed authorises; expression changes, replicate,
+   express and the assignments themselves), the value map (in dict order) and
+   the hash of genome i are unchanged and everything logged meanwhile is
+   unapproved — whatever the configuration was earlier (at construction
+   included) or would say about other changes, and whatever is done to the
+   relatives. *)
 Theorem c20_unauthorised_sequence_changes_nothing :
   forall W ops i G,
-    nth_error W i = Some G -> allow G = false -> all_unauthorised G (ops_for i ops) ->
+    nth_error W i = Some G -> all_unauthorised G (ops_for i ops) ->
     exists G' l,
       nth_error (run W ops) i = Some G' /\ vals G' = vals G /\ ghash G' = ghash G /\
       mlog G' = mlog G ++ l /\ Forall (fun m => m_approved m = false) l.
 Proof. exact unauthorised_sequence_proof. Qed.
 Print Assumptions c20_unauthorised_sequence_changes_nothing.
+
+(* The converse reading, over any history and any configuration: a stored value
+   of genome i that is no longer what it was has been changed by a call that
+   the configuration of genome i AT THE MOMENT OF THAT CALL authorised (Gk is
+   the state that call found; the value was still v then). *)
+Theorem c20_change_needs_authorisation_at_call_time :
+  forall W ops i G n v,
+    nth_error W i = Some G -> stored G n = Some v ->
+    exists G', nth_error (run W ops) i = Some G' /\
+      (stored G' n = Some v \/
+       exists pre o post Gk, ops_for i ops = pre ++ o :: post /\ Gk = g_run G pre /\
+                             stored Gk n = Some v /\ authorised_change Gk o n).
+Proof. exact change_attributed_proof. Qed.
+Print Assumptions c20_change_needs_authorisation_at_call_time.
+
+(* ---- 1b. the configuration attributes of a live genome --------------------- *)
+
+(* mutate's gate reads allow_mutations and on_mutation of the genome as it is
+   when mutate is called -- G is any state, reached through any history of
+   calls and assignments: locked now (whatever it was built with) -> refused,
+   logged unapproved, nothing else changes; enabled now or approved by the
+   callback installed now -> applied and logged approved. *)
+Theorem c20_gate_reads_live_configuration :
+  forall W i G n v old,
+    nth_error W i = Some G -> stored G n = Some old ->
+    (allow G = false -> cb_approves (cb G) (mkM n old v RUser false) = false ->
+       step W (i, OMutate n v) = (set_nth W i (add_log G (mkM n old v RUser false)), RetBool false)) /\
+    (allow G = true \/ cb_approves (cb G) (mkM n old v RUser false) = true ->
+       exists G', step W (i, OMutate n v) = (set_nth W i G', RetBool true) /\
+                  stored G' n = Some v /\ mlog G' = mlog G ++ [mkM n old v RUser true] /\
+                  allow G' = allow G /\ cb G' = cb G).
+Proof. exact live_gate_proof. Qed.
+Print Assumptions c20_gate_reads_live_configuration.
+
+(* an assignment changes that attribute and nothing else: genes, values, hash,
+   expression levels, log and lineage data stay, and no other genome of the
+   lineage notices (a child keeps the configuration it was handed at birth) *)
+Theorem c20_config_assignment_changes_only_config :
+  forall W i G o W' r,
+    nth_error W i = Some G -> is_config o = true -> step W (i, o) = (W', r) ->
+    r = RetNothing /\ length W' = length W /\
+    (forall j, j <> i -> nth_error W' j = nth_error W j) /\
+    exists G', nth_error W' i = Some G' /\ tbl G' = tbl G /\ vals G' = vals G /\ ghash G' = ghash G /\
+               mlog G' = mlog G /\ generation G' = generation G /\ parent G' = parent G /\
+               allow G' = last_allow [o] (allow G) /\ cb G' = last_cb [o] (cb G) /\
+               mrate G' = last_rate [o] (mrate G).
+Proof. exact config_world_proof. Qed.
+Print Assumptions c20_config_assignment_changes_only_config.
+
+(* ... and nothing but an assignment changes it: after any history the
+   configuration of genome i is the last value assigned to it on genome i, the
+   initial one when there was no assignment *)
+Theorem c20_configuration_is_last_assignment :
+  forall W ops i G,
+    nth_error W i = Some G ->
+    exists G', nth_error (run W ops) i = Some G' /\
+      allow G' = last_allow (ops_for i ops) (allow G) /\
+      cb G' = last_cb (ops_for i ops) (cb G) /\
+      mrate G' = last_rate (ops_for i ops) (mrate G).
+Proof. exact config_last_proof. Qed.
+Print Assumptions c20_configuration_is_last_assignment.
 
 (* ---- 2. refused attempts are logged as unapproved ----------------------- *)
 
@@ -134,6 +220,27 @@ Theorem c20_log_append_only :
     exists G' l, nth_error (run W ops) i = Some G' /\ mlog G' = mlog G ++ l.
 Proof. exact log_append_only_proof. Qed.
 Print Assumptions c20_log_append_only.
+
+(* the log keeps every attempt, however many: k calls of mutate in a row on an
+   existing gene -- refused or not -- leave exactly k new entries behind
+   everything that was logged before (no entry is ever dropped to make room),
+   for every k *)
+Theorem c20_log_keeps_every_attempt :
+  forall W i G n v k,
+    nth_error W i = Some G -> stored G n <> None ->
+    exists G' l, nth_error (run W (repeat (i, OMutate n v) k)) i = Some G' /\
+      mlog G' = mlog G ++ l /\ length l = k /\
+      Forall (fun m => m_gene m = n /\ m_new m = v /\ m_reason m = RUser) l.
+Proof. exact long_history_log_proof. Qed.
+Print Assumptions c20_log_keeps_every_attempt.
+
+(* the k-fold repetition of the generated cases' history notation (Model.rop,
+   observed compactly by rep_compact) is the k-fold repetition in the history
+   language of these theorems *)
+Theorem c20_repetition_is_iteration :
+  forall k t W i o, snd (fst (rep_compact t W i o k)) = run W (repeat (i, o) k).
+Proof. exact rep_compact_world. Qed.
+Print Assumptions c20_repetition_is_iteration.
 
 (* ---- 3. replication never alters the parent; no aliasing ---------------- *)
 
@@ -259,7 +366,9 @@ Proof. exact rollback_true_proof. Qed.
 Print Assumptions c20_rollback_target.
 
 (* after an approved mutation of n from v to w on genome i and any further
-   calls on the lineage that apply no mutation to n of genome i, rollback(n)
+   calls on the lineage -- ANY NUMBER of them, hundreds of logged attempts,
+   refused ones and assignments of the configuration included -- that apply
+   no mutation to n of genome i, rollback(n)
    restores v when it is authorised, and otherwise is refused, logged
    unapproved and changes nothing *)
 Theorem c20_rollback_restores :
